@@ -11,10 +11,14 @@ where
     #[inline(always)]
     fn collect_one_at(&self, index: usize) -> Option<T> {
         let len = self.base.len();
+        #[cfg(anydb_verif)]
+        rawdb::verif_tap::pause("ro-raw:after-len");
         if index >= len {
             return None;
         }
         let reader = self.base.region().create_reader();
+        #[cfg(anydb_verif)]
+        rawdb::verif_tap::pause("ro-raw:after-reader");
         Some(unsafe {
             S::read_from_ptr(
                 reader.prefixed(HEADER_OFFSET).as_ptr(),
@@ -26,6 +30,8 @@ where
     #[inline(always)]
     fn read_into_at(&self, from: usize, to: usize, buf: &mut Vec<T>) {
         let len = self.base.len();
+        #[cfg(anydb_verif)]
+        rawdb::verif_tap::pause("ro-raw:after-len");
         let from = from.min(len);
         let to = to.min(len);
         if from >= to {
@@ -34,6 +40,13 @@ where
         buf.reserve(to - from);
         if S::IS_NATIVE_LAYOUT {
             let reader = self.base.region().create_reader();
+            #[cfg(anydb_verif)]
+            rawdb::verif_tap::pause("ro-raw:after-reader-bulk");
+            #[cfg(anydb_verif)]
+            rawdb::verif_tap::emit(rawdb::verif_tap::Event::PtrRead {
+                addr: (reader.prefixed(HEADER_OFFSET).as_ptr() as usize).wrapping_add(from * size_of::<T>()),
+                len: (to - from) * size_of::<T>(),
+            });
             let src = unsafe {
                 std::slice::from_raw_parts(
                     reader
@@ -60,6 +73,8 @@ where
         Self: Sized,
     {
         let len = self.base.len();
+        #[cfg(anydb_verif)]
+        rawdb::verif_tap::pause("ro-raw:after-len");
         let from = from.min(len);
         let to = to.min(len);
         if from >= to {
@@ -80,6 +95,8 @@ where
         Self: Sized,
     {
         let len = self.base.len();
+        #[cfg(anydb_verif)]
+        rawdb::verif_tap::pause("ro-raw:after-len");
         let from = from.min(len);
         let to = to.min(len);
         if from >= to {
